@@ -197,7 +197,7 @@ PROPS = {
         "coq": ["Props/C11.v"],
         "level": "proof",
         "harness": ["gwrun"],
-        "stages": [("gw", stage_gw, {"profiles": [("churn", 1000, 6000), ("wild", 0, 1500)]})],
+        "stages": [("gw", stage_gw, {"profiles": [("churn", 700, 6000), ("accchurn", 500, 4000), ("wild", 0, 1500)]})],
         "rule": "disconnect injected at random steps with requests, loads, access checks and queued events outstanding, late answers delivered afterwards; "
                 "monitor at the next quiescent point: no subscription, no conn-event subscription left for the connection, use counts equal remaining "
                 "subscribers, and no service request on its behalf afterwards",
